@@ -153,17 +153,29 @@ func c14sRun(c c14sCase) verifkit.Result {
 			write(c.Before, "before the switch")
 		}
 		firstHeld = next + 1
+		hookDone := make(chan struct{})
+		var hookOnce sync.Once
 		conn.w.afterSetState = func(s *state.Registry) {
-			if s == state.Config && c.AtSwitch > 0 && !atSwitch {
+			if s != state.Config {
+				return
+			}
+			if c.AtSwitch > 0 && !atSwitch {
 				atSwitch = true
 				// another goroutine runs exactly here
 				done := make(chan struct{})
 				go func() { defer close(done); read(); write(c.AtSwitch, "encoder just switched to config") }()
 				<-done
 			}
+			hookOnce.Do(func() { close(hookDone) })
 		}
 		switched := make(chan struct{})
 		go func() { defer close(switched); player.switchToConfigState() }()
+		// the numbered packets come from one writer at a time: the next phase starts
+		// only when the writes at the encoder switch are through
+		select {
+		case <-hookDone:
+		case <-switched:
+		}
 		if c.DuringSend > 0 {
 			// the flush of StartUpdate is blocked (or about to block) on the silent client
 			time.Sleep(2 * time.Millisecond)
